@@ -23,11 +23,14 @@ responses (what the driver runs: the harness records the responses its reference
 to the real `BlockwiseRequest`), `RefServer.interact` closes the loop with the reference
 server (what the theorems about conforming servers talk about).
 
+* the deprecated way of choosing the Block1 size, `app_request.opt.block1 = (0, False, szx)`
+  (`Cfg.hint1`; protocol.py:921-937): `size_exp` starts at the hint instead of the remote's
+  maximum and every request goes through `_extract_block` -- also one that fits into one message,
+  also an empty one.
+
 Out of the model: the Observe option (protocol.py:1016-1031 cancels the lower
 observation when an intermediate acknowledgement carries Observe and goes on: no influence on the
-requests or the result, which is what the harness checks on requests with Observe:0), the
-deprecated way of passing a size hint in `app_request.opt.block1` (protocol.py:903-917; the driver
-answers `out-of-model`), an application request that asks for a particular block itself (Block2
+requests or the result, which is what the harness checks on requests with Observe:0), an application request that asks for a particular block itself (Block2
 option with a block number other than 0), task / weak reference lifetime,
 and loss or duplication of individual exchanges (the message layer's job; here every request gets
 at most one response).
@@ -75,14 +78,21 @@ inductive Outcome
 deriving Repr, DecidableEq
 
 /-- `app_request.payload`, `app_request.remote.maximum_block_size_exp`,
-`app_request.remote.maximum_payload_size`, and the size exponent of an application-preset
-`app_request.opt.block2 = (0, False, hint2)` (`none`: the request carries no Block2 option) -/
+`app_request.remote.maximum_payload_size`, the size exponent of an application-preset
+`app_request.opt.block2 = (0, False, hint2)` (`none`: the request carries no Block2 option), and
+the size exponent of an application-preset `app_request.opt.block1 = (0, False, hint1)` (the
+deprecated Block1 size hint; `none`: no Block1 option) -/
 structure Cfg where
   payload : Bytes
   szx0 : Nat
   maxPayload : Nat
   hint2 : Option Nat := none
+  hint1 : Option Nat := none
 deriving Repr, DecidableEq
+
+/-- protocol.py:919-937: `size_exp = app_request.remote.maximum_block_size_exp`, replaced by the
+exponent of an application-preset Block1 option -/
+def startSzx (cfg : Cfg) : Nat := cfg.hint1.getD cfg.szx0
 
 /-- `app_request.opt.block2`: every request of the Block1 phase is `app_request` itself or a copy
 made by `_extract_block` (message.py:441 `self.copy(payload=…, block1=…)`), so it carries it -/
@@ -120,10 +130,15 @@ def codeContinue : Nat := 95
 def threshold (cfg : Cfg) (szx : Nat) : Nat :=
   if szx ≥ 6 then cfg.maxPayload else 2 ^ (szx + 4)
 
-/-- protocol.py:920-930: the request of the current round of the Block1 loop; `none` is the
+/-- protocol.py:950-953: `app_request.opt.block1 is not None or len(app_request.payload) >
+fragmentation_threshold` -/
+def fragmented (cfg : Cfg) (szx : Nat) : Bool :=
+  cfg.hint1.isSome || decide (cfg.payload.length > threshold cfg szx)
+
+/-- protocol.py:943-961: the request of the current round of the Block1 loop; `none` is the
 `BadRequest` of `_extract_block`. Size1 is set on block 0 only. -/
 def nextRequest (cfg : Cfg) (st : B1State) : Option Req :=
-  if cfg.payload.length > threshold cfg st.szx then
+  if fragmented cfg st.szx then
     match extractBlock cfg.payload st.cursor st.szx cfg.maxPayload with
     | none => none
     | some (b, bytes) =>
@@ -251,8 +266,9 @@ def step (cfg : Cfg) : Phase → Resp → Phase
         if !b2.more then .done (.ok { code := asm'.code, etag := asm'.etag, payload := asm'.payload })
         else enterB2 cfg template asm'
 
-/-- `_run` starts the Block1 loop with `size_exp = maximum_block_size_exp`, `block_cursor = 0` -/
-def start (cfg : Cfg) : Phase := enterB1 cfg { szx := cfg.szx0, cursor := 0 }
+/-- `_run` starts the Block1 loop with `size_exp = maximum_block_size_exp` (or the application's
+Block1 hint), `block_cursor = 0` -/
+def start (cfg : Cfg) : Phase := enterB1 cfg { szx := startSzx cfg, cursor := 0 }
 
 /-- the request currently on the wire -/
 def Phase.outstanding : Phase → Option Req
